@@ -230,7 +230,7 @@ theorem cut_perm (V : List (Int × Tok × Int)) (inputs : List Tok) (n : Nat) (h
   rw [this] at h2
   exact h2
 
-theorem slotOK_cut (cells : List Cell) (sl : Slot) (V : List (Int × Tok × Int)) (n : Nat) (u : Bool) (lu : Nat)
+theorem slotOK_cut (cells : List Cell) (sl : Slot) (n : Nat) (u : Bool) (lu : Nat)
     (hn : n ≤ sl.inputs.length) (h : SlotOK cells sl)
     (cells' : List Cell) (hV : view cells' sl.id = (view cells sl.id).filter (fun x => decide (x.1 < (n : Int)))) :
     SlotOK cells' { sl with inUse := u, lastUsed := lu, inputs := sl.inputs.take n } := by
@@ -252,7 +252,8 @@ theorem coherent_find (c : Cache) (hc : Coherent c) (prompt : List Tok) (c1 : Ca
   · have hi := sp.valid
     obtain ⟨hidl, hokl⟩ := hc.2 li hli
     obtain ⟨hidi, _⟩ := hc.2 i hi
-    rw [getSlot_eq _ _ hli, getSlot_eq _ _ hi, hidl, hidi] at *
+    rw [getSlot_eq _ _ hli] at hnl
+    rw [getSlot_eq _ _ hli, getSlot_eq _ _ hi, hidl, hidi]
     apply coherent_update c hc i hi _ _ hidi (copy_bound _ _ _ _ hc.1)
     · intro t ht; rw [copy_view_other _ _ _ _ ht]
     · have hV := copy_view_dst li i (n : Int) hne c.cells
@@ -290,9 +291,9 @@ theorem coherent_loadTail (c : Cache) (hc : Coherent c) (i n : Nat) (hi : i < c.
   rw [getSlot_eq _ _ hi] at hn ⊢
   rw [hid]
   have hrc := remove_clear c.canShift c.cells i (m : Int) hc.1
-  apply coherent_update c hc i hi _ _ hid (remove_bound _ _ _ _ _ hc.1 (Int.natCast_nonneg _) (by unfold maxI32; omega))
+  apply coherent_update c hc i hi _ _ hid (remove_bound _ _ _ _ _ hc.1 (Int.natCast_nonneg _) (Or.inl rfl))
   · intro t ht; rw [remove_other _ _ _ _ ht]
-  · apply slotOK_cut c.cells c.slots[i] _ m true now (by omega) hok
+  · apply slotOK_cut c.cells c.slots[i] m true now (by omega) hok
     rw [hid]; exact hrc.2
 
 /-- one token batch of one sequence stored by Forward and appended to the record -/
@@ -351,7 +352,8 @@ theorem coherent_forward (c : Cache) (hc : Coherent c) (i : Nat) (hi : i < c.slo
 /-- ShiftCacheSlot keeps the cache coherent: always on its success path; on its failure path when the
     reset really clears the sequence (`resetEnd = MaxInt32`, the repaired source) -/
 theorem coherent_shift (c : Cache) (hc : Coherent c) (i keep : Nat) (hi : i < c.slots.length)
-    (hu : (getSlot c.slots i).inUse = true) (c' : Cache)
+    (hu : (getSlot c.slots i).inUse = true)
+    (hlen : ((getSlot c.slots i).inputs.length : Int) < maxI32) (c' : Cache)
     (h : shiftCacheSlot c i keep = .ok c' ∨ (c.resetEnd = maxI32 ∧ ∃ ins, shiftCacheSlot c i keep = .reprocess c' ins)) :
     Coherent c' := by
   obtain ⟨hid, hok⟩ := hc.2 i hi
@@ -359,7 +361,7 @@ theorem coherent_shift (c : Cache) (hc : Coherent c) (i keep : Nat) (hi : i < c.
   by_cases hk : keep ≥ c.numCtx
   · simp [hk] at h
   · simp only [hk, if_false] at h
-    rw [getSlot_eq _ _ hi] at h hu
+    rw [getSlot_eq _ _ hi] at h hu hlen
     rw [hid] at h
     generalize hd : shiftDiscard c.numCtx c.slots[i].inputs.length keep = d at h
     by_cases hd0 : d = 0
@@ -378,17 +380,34 @@ theorem coherent_shift (c : Cache) (hc : Coherent c) (i keep : Nat) (hi : i < c.
         have := hok.1
         rw [hid, filter_all _ _ (fun x hx => by simpa using hall x hx)] at this
         exact this
-      have hbnd := remove_bound c.canShift c.cells i (keep : Int) ((keep + d : Nat) : Int) hc.1
-        (Int.natCast_nonneg _) (by omega)
-      cases hr : (remove c.canShift c.cells i (keep : Int) ((keep + d : Nat) : Int)).2 with
+      have hbnd := remove_bound c.canShift c.cells i (keep : Int) ((keep : Int) + (d : Int)) hc.1
+        (Int.natCast_nonneg _) (Or.inr (by omega))
+      cases hr : (remove c.canShift c.cells i (keep : Int) ((keep : Int) + (d : Int))).2 with
       | none =>
         simp only [hr] at h
         rcases h with h | ⟨_, ins, h⟩
         · simp only [ShiftRes.ok.injEq] at h
           subst h
-          have hself := remove_shift_self c.canShift c.cells i (keep : Int) ((keep + d : Nat) : Int)
-            (by omega) (by unfold maxI32; have := hc.1; sorry) hr
-          sorry
+          have hself := remove_shift_self c.canShift c.cells i (keep : Int) ((keep : Int) + (d : Int))
+            (by omega) (by unfold maxI32 at *; omega) hr
+          have hoff : ((keep : Int) - ((keep : Int) + (d : Int))) = -(d : Int) := by omega
+          rw [hoff] at hself
+          have hnew : (view (remove c.canShift c.cells i (keep : Int) ((keep : Int) + (d : Int))).1 i).Perm
+              (canon (c.slots[i].inputs.take keep ++ c.slots[i].inputs.drop (keep + d))) := by
+            rw [hself, ← canon_shift _ _ _ hle]
+            exact hV.filterMap _
+          have hall' : ∀ x ∈ view (remove c.canShift c.cells i (keep : Int) ((keep : Int) + (d : Int))).1 i,
+              x.1 < ((c.slots[i].inputs.take keep ++ c.slots[i].inputs.drop (keep + d)).length : Int) := by
+            intro x hx
+            have := canonFrom_mem 0 _ x (hnew.mem_iff.mp hx)
+            omega
+          apply coherent_update c hc i hi _ _ hid hbnd
+          · intro t ht; rw [remove_other _ _ _ _ ht]
+          · refine ⟨?_, ?_⟩
+            · simp only [hid]
+              rw [filter_all _ _ (fun x hx => by simpa using hall' x hx)]
+              exact hnew
+            · intro _; simp only [hid]; exact hall'
         · cases h
       | some e =>
         simp only [hr] at h
@@ -399,9 +418,9 @@ theorem coherent_shift (c : Cache) (hc : Coherent c) (i keep : Nat) (hi : i < c.
           rw [hre]
           have hrc := remove_clear c.canShift _ i (0 : Int) hbnd
           apply coherent_update c hc i hi _ _ hid
-            (remove_bound _ _ _ _ _ hbnd (by omega) (by unfold maxI32; omega))
+            (remove_bound _ _ _ _ _ hbnd (by omega) (Or.inl rfl))
           · intro t ht; rw [remove_other _ _ _ _ ht, remove_other _ _ _ _ ht]
-          · have hnil : view (remove c.canShift (remove c.canShift c.cells i (keep : Int) ((keep + d : Nat) : Int)).1 i 0 maxI32).1 i = [] := by
+          · have hnil : view (remove c.canShift (remove c.canShift c.cells i (keep : Int) ((keep : Int) + (d : Int))).1 i 0 maxI32).1 i = [] := by
               rw [hrc.2]
               apply filter_none
               intro x hx
@@ -410,5 +429,160 @@ theorem coherent_shift (c : Cache) (hc : Coherent c) (i keep : Nat) (hi : i < c.
             refine ⟨?_, ?_⟩
             · simp only [hid, hnil]; exact List.Perm.refl _
             · intro _ x hx; simp only [hid, hnil] at hx; cases hx
+
+/-- the end of a request: the stop handling cuts the record to `k` inputs (`k ≥ len`: plain release)
+    and the slot is released; the KV cache is not touched -/
+def finish (c : Cache) (i k : Nat) : Cache :=
+  { c with slots := setSlot c.slots i fun s => { s with inputs := s.inputs.take k, inUse := false } }
+
+theorem take_length_take {α} (l : List α) (k : Nat) : l.take (l.take k).length = l.take k := by
+  by_cases hk : k ≤ l.length
+  · simp [List.length_take, Nat.min_eq_left hk]
+  · have h1 : l.take k = l := List.take_of_length_le (by omega)
+    rw [h1, List.take_of_length_le (Nat.le_refl _)]
+
+theorem coherent_finish (c : Cache) (hc : Coherent c) (i k : Nat) (hi : i < c.slots.length) :
+    Coherent (finish c i k) := by
+  obtain ⟨hid, hok⟩ := hc.2 i hi
+  unfold finish
+  have := coherent_update c hc i hi (fun s => { s with inputs := s.inputs.take k, inUse := false }) c.cells hid hc.1
+    (fun t _ => List.Perm.refl _) ?_
+  · simpa using this
+  · refine ⟨?_, fun h => by cases h⟩
+    simp only
+    have hn : (c.slots[i].inputs.take k).length ≤ c.slots[i].inputs.length := by
+      simp [List.length_take]; omega
+    have := cut_perm (view c.cells c.slots[i].id) c.slots[i].inputs _ hn hok.1
+    rw [take_length_take] at this
+    exact this
+
+/-! ## request histories as sequences of cache operations -/
+
+/-- One thing the runner does to (slot records, KV cache).  `allowFail` says whether a ShiftCacheSlot
+    that takes its failure path (ErrReprocessInputs) is part of the alphabet. -/
+inductive Step (allowFail : Bool) : Cache → Cache → Prop
+  /-- LoadCacheSlot for a new request (any prompt, time, CanResume answer, either policy) -/
+  | load (c : Cache) (prompt : List Tok) (now : Nat) (cr : Bool) (c' : Cache) (i : Nat) (rest : List Tok) :
+      loadCacheSlot c prompt now cr = .ok (c', i, rest) → Step allowFail c c'
+  /-- Forward of `new` for the request owning slot `i` (positions = record length + k, any free
+      placement), followed by the append to the record -/
+  | forward (c : Cache) (i : Nat) (new : List Tok) (loc : Nat) :
+      i < c.slots.length → (getSlot c.slots i).inUse = true →
+      (∀ x ∈ (c.cells.drop loc).take new.length, x.seqs = []) →
+      ((getSlot c.slots i).inputs.length : Int) + new.length < maxI32 → Step allowFail c (forward c i new loc)
+  /-- ShiftCacheSlot, success path (also `discard = 0`) -/
+  | shiftOk (c : Cache) (i keep : Nat) (c' : Cache) :
+      i < c.slots.length → (getSlot c.slots i).inUse = true →
+      ((getSlot c.slots i).inputs.length : Int) < maxI32 →
+      shiftCacheSlot c i keep = .ok c' → Step allowFail c c'
+  /-- ShiftCacheSlot, failure path: the sequence is reset and `ins` is handed back for reprocessing -/
+  | shiftFailed (c : Cache) (i keep : Nat) (c' : Cache) (ins : List Tok) :
+      allowFail = true →
+      i < c.slots.length → (getSlot c.slots i).inUse = true →
+      ((getSlot c.slots i).inputs.length : Int) < maxI32 →
+      shiftCacheSlot c i keep = .reprocess c' ins → Step allowFail c c'
+  /-- end of a request (EOS, numPredict, stop string with its cut of the record) -/
+  | finish (c : Cache) (i k : Nat) : i < c.slots.length → Step allowFail c (finish c i k)
+  /-- defrag: any relocation that keeps every sequence's entries (C06's obligation) -/
+  | relocate (c : Cache) (cells' : List Cell) :
+      (∀ s, (view cells' s).Perm (view c.cells s)) → PosBound cells' → Step allowFail c { c with cells := cells' }
+
+inductive Steps (allowFail : Bool) : Cache → Cache → Prop
+  | refl (c : Cache) : Steps allowFail c c
+  | tail (a b c : Cache) : Steps allowFail a b → Step allowFail b c → Steps allowFail a c
+
+theorem shift_resetEnd (c : Cache) (i keep : Nat) (c' : Cache)
+    (h : shiftCacheSlot c i keep = .ok c' ∨ ∃ ins, shiftCacheSlot c i keep = .reprocess c' ins) :
+    c'.resetEnd = c.resetEnd := by
+  unfold shiftCacheSlot at h
+  simp only at h
+  split at h
+  · rcases h with h | ⟨_, h⟩ <;> cases h
+  · split at h
+    · rcases h with h | ⟨_, h⟩
+      · cases h; rfl
+      · cases h
+    · split at h
+      · rcases h with h | ⟨_, h⟩
+        · cases h
+        · cases h; rfl
+      · rcases h with h | ⟨_, h⟩
+        · cases h; rfl
+        · cases h
+
+theorem load_coherent (c : Cache) (hc : Coherent c) (prompt : List Tok) (now : Nat) (cr : Bool) (c' : Cache)
+    (i : Nat) (rest : List Tok) (h : loadCacheSlot c prompt now cr = .ok (c', i, rest)) :
+    Coherent c' ∧ c'.resetEnd = c.resetEnd := by
+  obtain ⟨c1, i0, n, hf, ht⟩ := load_split c prompt now cr c' i rest h
+  have sp := findSlot_spec c prompt now c1 i0 n hf
+  have hc1 := coherent_find c hc prompt c1 i0 n sp
+  have hi1 : i0 < c1.slots.length := by rw [findSpec_length sp]; exact sp.valid
+  have hn : n ≤ (getSlot c1.slots i0).inputs.length := by
+    have h1 := sp.pre n (Nat.le_refl _)
+    have h2 : ((getSlot c1.slots i0).inputs.take n).length = (prompt.take n).length := by rw [h1]
+    simp only [List.length_take] at h2
+    have := sp.le
+    omega
+  refine ⟨coherent_loadTail c1 hc1 i0 n hi1 hn prompt now cr c' i rest ht, ?_⟩
+  obtain ⟨m, _, rfl⟩ := loadTail_ok c1 i0 n prompt now cr hc1.1 c' i rest ht
+  rcases sp.shape with rfl | ⟨li, _, _, _, rfl⟩ <;> rfl
+
+/-- one step preserves coherence; a failed shift does only when its reset clears the sequence -/
+theorem coherent_step (af : Bool) (c c' : Cache) (hc : Coherent c) (hs : Step af c c')
+    (hg : af = true → c.resetEnd = maxI32) : Coherent c' ∧ c'.resetEnd = c.resetEnd := by
+  match hs with
+  | .load _ prompt now cr _ i rest h => exact load_coherent c hc prompt now cr c' i rest h
+  | .forward _ i new loc hi hu hfree hpos => exact ⟨coherent_forward c hc i hi new loc hu hfree hpos, rfl⟩
+  | .shiftOk _ i keep _ hi hu hlen h =>
+    exact ⟨coherent_shift c hc i keep hi hu hlen c' (Or.inl h), shift_resetEnd c i keep c' (Or.inl h)⟩
+  | .shiftFailed _ i keep _ ins haf hi hu hlen h =>
+    exact ⟨coherent_shift c hc i keep hi hu hlen c' (Or.inr ⟨hg haf, ins, h⟩),
+      shift_resetEnd c i keep c' (Or.inr ⟨ins, h⟩)⟩
+  | .finish _ i k hi => exact ⟨coherent_finish c hc i k hi, rfl⟩
+  | .relocate _ cells' hp hb =>
+    refine ⟨⟨hb, fun j hj => ?_⟩, rfl⟩
+    obtain ⟨h1, h2⟩ := hc.2 j hj
+    exact ⟨h1, SlotOK_perm c.cells cells' _ (hp _) h2⟩
+
+/-- **Coherent is an invariant of every request history (repaired failure path).**  For every
+    configuration (slots, context size, policy, with or without shiftFn) and every finite sequence of
+    loads, forwards, successful AND failed context shifts, request ends and relocations, starting from
+    any coherent cache whose failed-shift reset is `Remove(id, 0, MaxInt32)`: the cache stays coherent. -/
+theorem coherent_invariant (c0 c : Cache) (h0 : Coherent c0) (hfix : c0.resetEnd = maxI32)
+    (hs : Steps true c0 c) : Coherent c := by
+  suffices h : Coherent c ∧ c.resetEnd = maxI32 from h.1
+  induction hs with
+  | refl => exact ⟨h0, hfix⟩
+  | tail b c _ hstep ih =>
+    obtain ⟨hb, hr⟩ := ih
+    obtain ⟨h1, h2⟩ := coherent_step true b c hb hstep (fun _ => hr)
+    exact ⟨h1, h2.trans hr⟩
+
+/-- **Partial (pinned source, `Remove(id, 0, -1)` or any other reset).**  Guard: no ShiftCacheSlot of
+    the history takes its failure path (decidable per step: `shiftCacheSlot c i keep` is not a
+    `.reprocess`).  What is missing is exactly the failure path: see `F3_pinned_reset_leaves_stale_entries`. -/
+theorem coherent_invariant_partial (c0 c : Cache) (h0 : Coherent c0) (hs : Steps false c0 c) : Coherent c := by
+  induction hs with
+  | refl => exact h0
+  | tail b c _ hstep ih => exact (coherent_step false b c ih hstep (fun h => by cases h)).1
+
+/-- a brand-new runner is coherent -/
+theorem coherent_init (resetEnd : Int) (parallel ctx batch : Nat) (multi canShift : Bool) (vocab eosMod : Nat) :
+    Coherent (mkServer resetEnd parallel ctx batch multi canShift vocab eosMod).cache := by
+  unfold mkServer
+  refine ⟨?_, fun j hj => ?_⟩
+  · intro x hx
+    simp only [List.mem_replicate] at hx
+    rw [hx.2]; unfold Cell.free maxI32; simp
+  · simp only [List.length_map, List.length_range] at hj
+    simp only [List.getElem_map, List.getElem_range]
+    refine ⟨trivial, ?_, ?_⟩
+    · have : view (List.replicate (parallel * ctx) Cell.free) j = [] := by
+        apply view_free
+        intro x hx
+        simp only [List.mem_replicate] at hx
+        rw [hx.2]; rfl
+      simp only [this]; exact List.Perm.refl _
+    · intro h; cases h
 
 end OllamaVerif.C07
